@@ -31,7 +31,8 @@ DECLASSIFY_LAST = {'vartime_multiscalar_mul', 'multiscalar_mul', 'vartime_mixed_
                    'is_identity', 'len', 'is_empty', 'capacity', 'to_string', 'is_some', 'is_none', 'r_len'}
 WIPING_CALLEES = ('zeroize::Zeroizing::<Z>::new',)
 # vector operations that may copy the contents into a fresh allocation and free the old one un-wiped
-REALLOCATING = ('shrink_to_fit', 'shrink_to', 'reserve', 'reserve_exact', 'try_reserve', 'try_reserve_exact', 'into_boxed_slice', 'insert', 'resize', 'resize_with')
+REALLOCATING = ('shrink_to_fit', 'shrink_to', 'reserve', 'reserve_exact', 'try_reserve', 'try_reserve_exact', 'into_boxed_slice', 'insert', 'resize', 'resize_with',
+                'clone_from', 'clone_into')
 
 # reviewed exceptions: key -> reason
 TABLED = {
@@ -548,7 +549,8 @@ def no_realloc(ctx, taint, wiping_adts):
         if b.impl_trait in ('std::fmt::Debug', 'std::fmt::Display'):
             continue
         ix = ctx.eng.bx(b)
-        evs = [e for e in ix.events() if e['kind'] == 'call' and e['decl'].split('::')[-1] in REALLOCATING and 'Vec' in e['decl']]
+        evs = [e for e in ix.events() if e['kind'] == 'call' and e['decl'].split('::')[-1] in REALLOCATING and
+               ('Vec' in e['decl'] or 'std::vec::Vec<' in e['node']['args'][e['mutarg']]['place'].get('ty', ''))]
         if not evs:
             continue
         stored = {}
@@ -577,6 +579,10 @@ def no_realloc(ctx, taint, wiping_adts):
             for r in e['roots']:
                 if r in stored:
                     why = 'the vector becomes field `%s` of a secret owner' % stored[r]
+            fp = e.get('fpath') or ()
+            if why is None and fp and fp[-1] in taint.secret_fields and any(
+                    r[0] == 'L' and any(o in b.local_ty(r[1]) for o in SECRET_OWNERS) for r in e['roots']):
+                why = 'the vector is field `%s` of a secret owner' % fp[-1]
             if why is None:
                 src = set()
                 for r in e['roots']:
